@@ -76,41 +76,98 @@ def gapFree (p : Nat) (tr : List Ev) : Bool :=
   let k := curOf p tr
   k.db = 0 || (List.range (k.db - k.first)).all (fun i => covered tr (k.first + i))
 
-/-! ### observations of the real loop
+/-! ### observations of the real loop, at the level of individual bridge events
 
-  Against the real `EthereumSub.Start` the harness does not see "range handed to the submitter" but the
-  claims that arrive at the (simulated) Sifchain endpoint.  With a scripted placement of bridge events
-  (`nonce ↦ block`), a received batch of claims counts as the submission of the range just queried iff it
-  is exactly the set of events placed in that range; a queried range without events needs no submission. -/
+  Against the real `EthereumSub.Start` the harness sees headers delivered, `eth_getLogs` ranges, the claims
+  that arrive at the (simulated) Sifchain endpoint — possibly in several transactions per iteration —, every
+  LevelDB write of the cursor — possibly several per iteration —, and restarts.  `place` is the scripted
+  placement of bridge events (`nonce ↦ block`).  The predicates below do not assume how an implementation
+  groups claims into transactions or how often it checkpoints: they state what every grouping must respect. -/
 
 inductive Raw
   | head (n : Nat)
   | query (lo hi : Nat) (ok : Bool)
-  | claims (nonces : List Nat)
-  | put (v : Nat)
+  | claims (nonces : List Nat)        -- one broadcast transaction
+  | put (v : Nat)                     -- one LevelDB write of the cursor
   | restart (p : Nat)
   deriving Repr, DecidableEq
+
+structure RObs where
+  c : Nat                        -- cursor the running process works with (0 = not initialised)
+  mh : Nat                       -- newest header number delivered so far
+  db : Nat                       -- LevelDB cursor
+  pending : Option (Nat × Nat)   -- range returned by the last successful query of this iteration
+  sent : List Nat                -- nonces broadcast since that query (by this process)
+  deriving Repr, DecidableEq
+
+/-- nonce `n` is an event placed in one of the blocks lo..hi -/
+def placedIn (place : List (Nat × Nat)) (lo hi n : Nat) : Bool :=
+  place.any (fun nb => nb.1 = n && decide (lo ≤ nb.2) && decide (nb.2 ≤ hi))
+
+/-- every event placed in a block of `[lo, v)` is among `sent` -/
+def allSentBelow (place : List (Nat × Nat)) (sent : List Nat) (lo v : Nat) : Bool :=
+  place.all (fun nb => !(decide (lo ≤ nb.2) && decide (nb.2 < v)) || sent.contains nb.1)
+
+/-- one raw observation; `none` = the trace breaks the property.  Clauses:
+    * confirmation: a query never reaches above `newest header − t`, and every claim broadcast is an event of
+      the range just queried (so of a confirmed block);
+    * contiguity: a query starts exactly at the process's cursor (with no cursor yet: the single block `head − t`);
+    * cursor after handling: ANY write of the cursor — final or checkpoint — is admissible only if it stays
+      within the queried range (`v ≤ hi + 1`) and every event in a block of that range below the written
+      value has been broadcast before it: the persisted cursor is never beyond an unsubmitted event;
+    * restart resumes from the persisted cursor. -/
+def observeRaw (t : Nat) (place : List (Nat × Nat)) (o : RObs) : Raw → Option RObs
+  | .head n => some { o with mh := max o.mh n, pending := none, sent := [] }
+  | .query lo hi ok =>
+      if decide (hi + t ≤ o.mh) && (if o.c = 0 then decide (lo = hi) else decide (lo = o.c)) then
+        some { o with c := lo, pending := if ok then some (lo, hi) else none, sent := [] }
+      else none
+  | .claims ns =>
+      match o.pending with
+      | some (lo, hi) => if ns.all (placedIn place lo hi) then some { o with sent := ns ++ o.sent } else none
+      | none => none
+  | .put v =>
+      match o.pending with
+      | some (lo, hi) =>
+          if decide (v ≤ hi + 1) && allSentBelow place o.sent lo v then some { o with db := v, c := v } else none
+      | none => none
+  | .restart p =>
+      if p = o.db then some { o with c := p, pending := none, sent := [] } else none
+
+def observeRawAll (t : Nat) (place : List (Nat × Nat)) : RObs → List Raw → Option RObs
+  | o, [] => some o
+  | o, e :: es => match observeRaw t place o e with
+    | none => none
+    | some o' => observeRawAll t place o' es
+
+/-- the whole observed trace is admissible, starting with a process on cursor `p` -/
+def rawTraceOK (t p : Nat) (place : List (Nat × Nat)) (raw : List Raw) : Bool :=
+  (observeRawAll t place { c := p, mh := 0, db := p, pending := none, sent := [] } raw).isSome
+
+def rawCurStep (k : Cur) : Raw → Cur
+  | .query lo _ _ => if k.c = 0 then { k with c := lo, first := lo } else k
+  | .put v => { k with db := v, c := v }
+  | .restart p => { k with c := p }
+  | _ => k
+
+def rawCurOf (p : Nat) (raw : List Raw) : Cur := raw.foldl rawCurStep { db := p, c := p, first := p }
+
+/-- all nonces broadcast anywhere in the trace -/
+def allClaims (raw : List Raw) : List Nat :=
+  raw.flatMap (fun r => match r with | .claims ns => ns | _ => [])
+
+/-- no gap, per event: every bridge event in a block from the first scanned block up to (excluding) the
+    persisted cursor has been broadcast at least once -/
+def rawGapFree (p : Nat) (place : List (Nat × Nat)) (raw : List Raw) : Bool :=
+  let k := rawCurOf p raw
+  k.db = 0 || place.all (fun nb => !(decide (k.first ≤ nb.2) && decide (nb.2 < k.db)) || (allClaims raw).contains nb.1)
 
 /-- nonces of the events placed in blocks lo..hi, ascending -/
 def noncesIn (place : List (Nat × Nat)) (lo hi : Nat) : List Nat :=
   ((place.filter (fun nb => decide (lo ≤ nb.2) && decide (nb.2 ≤ hi))).map (·.1)).mergeSort
 
-/-- lift raw observations to trace events; `none` when a batch of claims is not the event set of the range
-    last queried (events lost, duplicated within a batch, or from other blocks) -/
-def liftRaw (place : List (Nat × Nat)) : Option (Nat × Nat) → List Raw → Option (List Ev)
-  | _, [] => some []
-  | _, .head n :: r => (liftRaw place none r).map (Ev.head n :: ·)
-  | _, .query lo hi ok :: r =>
-      if ok && noncesIn place lo hi = [] then (liftRaw place none r).map (fun t => Ev.query lo hi ok :: Ev.submit lo hi :: t)
-      else (liftRaw place (if ok then some (lo, hi) else none) r).map (Ev.query lo hi ok :: ·)
-  | pend, .claims ns :: r =>
-      match pend with
-      | some (lo, hi) => if ns.mergeSort = noncesIn place lo hi then (liftRaw place none r).map (Ev.submit lo hi :: ·) else none
-      | none => none
-  | pend, .put v :: r => (liftRaw place pend r).map (Ev.put v :: ·)
-  | _, .restart p :: r => (liftRaw place none r).map (Ev.restart p :: ·)
-
-/-- the raw rendering of a model trace under a placement (inverse direction, used by the driver) -/
+/-- the raw rendering of a model trace under a placement: the model hands a whole range to the submitter,
+    which is one transaction with the events of that range (none if the range has no events) -/
 def lowerEv (place : List (Nat × Nat)) : Ev → List Raw
   | .head n => [.head n]
   | .query lo hi ok => [.query lo hi ok]
@@ -118,14 +175,6 @@ def lowerEv (place : List (Nat × Nat)) : Ev → List Raw
   | .put v => [.put v]
   | .restart p => [.restart p]
 
-def rawTraceOK (t p : Nat) (place : List (Nat × Nat)) (raw : List Raw) : Bool :=
-  match liftRaw place none raw with
-  | some tr => traceOK t p tr
-  | none => false
-
-def rawGapFree (p : Nat) (place : List (Nat × Nat)) (raw : List Raw) : Bool :=
-  match liftRaw place none raw with
-  | some tr => gapFree p tr
-  | none => false
+def lower (place : List (Nat × Nat)) (tr : List Ev) : List Raw := tr.flatMap (lowerEv place)
 
 end Sif.Spec.C17
